@@ -1,0 +1,22 @@
+//go:build verif
+
+package pogreb
+
+// VerifYield, when set, is called at the points where compaction runs outside of the
+// database lock. It lets the verification harness place other operations deterministically.
+var VerifYield func(point string)
+
+// VerifSeedOverride, when set, replaces the hash seed chosen by Open.
+var VerifSeedOverride *uint32
+
+func verifYield(point string) {
+	if f := VerifYield; f != nil {
+		f(point)
+	}
+}
+
+func verifSeed(db *DB) {
+	if s := VerifSeedOverride; s != nil {
+		db.hashSeed = *s
+	}
+}
